@@ -83,6 +83,8 @@ func main() {
 		os.Exit(cmdAnalyseVariant(os.Args[2:]))
 	case "effects":
 		os.Exit(cmdEffects(os.Args[2:]))
+	case "rename-locals":
+		os.Exit(cmdRenameLocals(os.Args[2:]))
 	default:
 		usage()
 	}
